@@ -3,6 +3,7 @@ package trace
 import (
 	"context"
 	"sync"
+	"time"
 
 	"go.opentelemetry.io/otel/sdk/instrumentation"
 	"go.opentelemetry.io/otel/trace"
@@ -243,4 +244,32 @@ func HarnessC15UnregisterDuringDelivery() {
 			_ = x
 		}
 	}
+}
+
+// C15.nilbatch: the batch span processor around a nil exporter, with live or
+// already-cancelled contexts: no call panics or blocks forever
+func HarnessC15NilBatch() {
+	bsp := NewBatchSpanProcessor(nil, WithMaxQueueSize(2), WithMaxExportBatchSize(1), WithBatchTimeout(time.Hour), WithExportTimeout(0))
+	p := c15Provider()
+	p.RegisterSpanProcessor(bsp)
+	cancelled, cancel := context.WithCancel(context.Background())
+	cancel()
+	pick := func() context.Context {
+		if vndChoice(2) == 1 {
+			return cancelled
+		}
+		return context.Background()
+	}
+	_, s := p.Tracer("t").Start(context.Background(), "s")
+	s.End()
+	bsp.ForceFlush(pick())
+	_, s = p.Tracer("t").Start(context.Background(), "s2")
+	s.End()
+	bsp.Shutdown(pick())
+	bsp.Shutdown(pick())
+	bsp.ForceFlush(pick())
+	_, s = p.Tracer("t").Start(context.Background(), "s3")
+	s.End()
+	vndReach("nil-batch")
+	vndAssert(p.Shutdown(context.Background()) == nil, "provider-shutdown-harmless")
 }
